@@ -26,6 +26,26 @@ Definition spec_d (calls : list call) (hang : bool) (l : list oev) : bytes :=
   else if negb (err_flags_ok calls l) then B "wrong-kind-of-reply"
   else tokOK.
 
+(* The model has no object tree: a call is looked up successfully by construction.  The one place where the tree matters
+   is a handler that removes its own interface (script op r2): a method call to that interface that arrives later is
+   answered with UnknownInterface / UnknownObject by the dispatch task if its lookup comes after the removal, and runs
+   normally otherwise.  The observation tells which: an error reply and no handler start.  Such a call is judged as a
+   call to an unknown object.  (ObjectServer::remove itself is modelled as: root write lock to the end, NOTHING else —
+   in particular it does not touch the lock of the interface it removes; the replay refuses a log in which a
+   self-removing handler could only proceed otherwise, and a hang there is not explained by the model.) *)
+Definition lookup_failed (l : list oev) (id : nat) : bool :=
+  existsb (fun o => match o with OEv (EvR n) true => Nat.eqb n id | _ => false end) l &&
+  negb (existsb (fun o => match o with OEv (EvS n) _ => Nat.eqb n id | _ => false end) l).
+
+Fixpoint adjust (sr : list (nat * nat)) (l : list oev) (i : nat) (calls : list call) : list call :=
+  match calls with
+  | [] => []
+  | c :: r =>
+      (if is_method (c_kind c) && existsb (fun p => Nat.ltb (fst p) i && Nat.eqb (snd p) (c_if c)) sr && lookup_failed l (c_id c)
+       then {| c_id := c_id c; c_kind := KUnknown; c_if := c_if c; c_spawn := false; c_noreply := false; c_script := [] |}
+       else c) :: adjust sr l (S i) r
+  end.
+
 (* ------------------------------------------------------------------ L cases *)
 Definition lst := (lz * list lzlabel)%type.
 
@@ -150,7 +170,8 @@ Definition run_case (line : bytes) : outp :=
       match parse_obs obs with
       | Some (hang, l) =>
           match parse_case case, parse_lcase case with
-          | Some calls, _ =>
+          | Some calls0, _ =>
+              let calls := adjust (self_removers case) l 0 calls0 in
               let evs := evs_of l in
               {| o_model := if hang then explains_hang calls (replied evs) (soe evs) else explains_ok calls (soe evs);
                  o_spec := spec_d calls hang l;
